@@ -96,6 +96,9 @@ def check_drift(case, ctx: Ctx):
     from pulser_simulation import QutipEmulator, SimConfig
 
     C = "C15.drift_correction"
+    if not (case["pre_pulse"] or case["disable"] or any(s["k"] == "pulse" for s in case["steps"])):
+        ctx.label("no_pulse_at_all")  # the twin would be empty: nothing to emulate
+        return
     e = case["eom"]
     beams = {"RED": RydbergBeam.RED, "BLUE": RydbergBeam.BLUE}
     eom = RydbergEOM(limiting_beam=beams[e["limiting_beam"]], max_limiting_amp=e["max_limiting_amp"],
